@@ -34,7 +34,7 @@
     #[test]
     fn search() {
         let (mut cases, mut fails) = (0u64, 0u32);
-        let esc = |s: &str| s.replace('\\', "\\\\").replace('"', "'").replace('\n', "\\n");
+        let esc = |s: &str| s.replace('\\', "\\\\").replace('"', "'").replace('\n', "\\n").replace('\t', " ");
         for src in corpus() {
             cases += 1;
             let parser = RoocParser::new(src.clone());
